@@ -152,7 +152,7 @@ class ServiceRunner(object):
         self.running = threading.Event()
         self.accept_delay = accept_delay
 
-    def execute(self, payload, *args, flavour: ModuleType, **kwargs):
+    def execute(self, payload, /, *args, flavour: ModuleType, **kwargs):
         """
         Synchronously run ``payload`` and provide its output
 
@@ -163,7 +163,7 @@ class ServiceRunner(object):
             payload = functools.partial(payload, *args, **kwargs)
         return self._meta_runner.run_payload(payload, flavour=flavour)
 
-    def adopt(self, payload, *args, flavour: ModuleType, **kwargs):
+    def adopt(self, payload, /, *args, flavour: ModuleType, **kwargs):
         """
         Concurrently run ``payload`` in the background
 
